@@ -18,9 +18,12 @@ class C14(flow.Spec):
             "harness. The candidate maps the real code hands to each listener are recorded (cfg hook) and fed to the Coq "
             "model, whose notifications must equal the real ones in order; oracle fate_ok (Coq) at every flush: every key "
             "whose row changed since the listener attached has been notified and the last notification of every notified "
-            "key says deleted exactly when the row is absent. non-trivial = distinct histories with at least one delete and "
+            "key says deleted exactly when the row is absent. Plus `evict n`: the real feed is handed a newer state of a key, then n "
+            "other keys, then an older state of the key (the order a delayed broadcast_changes task produces): for n < 2000 "
+            "the older state must be dropped; for n >= 2000 the cache has forgotten the key and the stale 'deleted' is delivered "
+            "last -- the known finding cl-cache-eviction (C14_evict_refuted). non-trivial = distinct histories with at least one delete and "
             "one update notification")
-    assumptions = ["at most MAX_CACHE_ENTRIES (2000) distinct keys are in flight between two candidates of one key (C14_evict_refuted shows the bound is necessary)",
+    assumptions = ["the final-fate theorem needs at most MAX_CACHE_ENTRIES (2000) distinct keys in flight between two candidates of one key; beyond the bound the property FAILS on the real code (known finding cl-cache-eviction, C14_evict_refuted, evict 2000)",
                    "the listener's own stream (HTTP chunking, broadcast fan-out to several clients) is not exercised here",
                    "batches are cut by the harness through the cfg(corro_verif) hook; the 600 ms timer itself is runtime"]
 
@@ -52,6 +55,10 @@ class C14(flow.Spec):
                     ops.append("F")
             ops += ["D 0", "F"]
             out.append(("upd %d %s" % (len(ops), " ".join(ops)), tags))
+        # an older state of a key arriving after a newer one (a delayed broadcast_changes task),
+        # with n other keys received in between: the cl cache must still know the key
+        for n in ([10, 1500, 1999, 2000, 2100] if tier == "quick" else [1, 10, 500, 999, 1000, 1001, 1500, 1999, 2000, 2001, 2100, 3000, 4500]):
+            out.append(("evict %d" % n, {"stale-candidate-after-newer", "evicted" if n >= 2000 else "still-cached"}))
         return out
 
     def steps(self, impl_obs):
@@ -68,6 +75,15 @@ class C14(flow.Spec):
         return res
 
     def model_lines(self, case, impl_obs):
+        if case.startswith("evict"):
+            n = int(case.split()[1])
+            ops = ["R 1 0 3", "F"]
+            ks = list(range(1, n + 1))
+            for i in range(0, len(ks), 500):
+                ch = ks[i:i + 500]
+                ops.append("R %d %s" % (len(ch), " ".join("%d 1" % k for k in ch)))
+            ops += ["F", "R 1 0 2", "F"]
+            return ["updm %d %s" % (len(ops), " ".join(ops))]
         st = self.steps(impl_obs)
         if not st:
             return []
@@ -83,7 +99,17 @@ class C14(flow.Spec):
             lines.append("updm %d %s" % (len(ops), " ".join(ops)))
         return lines
 
+    def key0(self, impl_obs):
+        m = re.match(r"key0=(\S*) flushed=(\d)", impl_obs or "")
+        return ([x for x in m.group(1).split(",") if x], m.group(2) == "1") if m else (None, False)
+
     def agree(self, case, impl_obs, model_obs):
+        if case.startswith("evict"):
+            got, ok = self.key0(impl_obs)
+            if got is None or not ok:
+                return False
+            want = [x.split(":")[0] for stp in model_obs.split(" # ") for x in stp.split(",") if x.strip().endswith(":0")]
+            return got == want
         st = self.steps(impl_obs)
         if not st:
             return False
@@ -101,9 +127,11 @@ class C14(flow.Spec):
         return True
 
     def nontrivial(self, case, model_obs):
-        return "D:" in model_obs and "U:" in model_obs
+        return case.startswith("evict") or ("D:" in model_obs and "U:" in model_obs)
 
     def oracle_lines(self, case, impl_obs):
+        if case.startswith("evict"):
+            return []
         st = self.steps(impl_obs)
         if not st:
             return []
@@ -124,7 +152,19 @@ class C14(flow.Spec):
                     len(notes[ti]), " ".join("%s %s" % x for x in notes[ti])))
         return out
 
+    def classify(self, case, impl_obs):
+        if case.startswith("evict") and int(case.split()[1]) >= 2000 and self.key0(impl_obs)[0] == ["U", "D"]:
+            return "cl-cache-eviction"
+        return None
+
     def impl_verdict(self, case, impl_obs):
+        if case.startswith("evict"):
+            got, ok = self.key0(impl_obs)
+            if got is None or not ok:
+                return False
+            # the newest state of key 0 is causal length 3 (the row exists): the last notification
+            # must say updated, and nothing older may follow it
+            return None if got == ["U"] else False
         st = self.steps(impl_obs)
         if st is None:
             return False
